@@ -293,8 +293,8 @@ func (f *Filter) removeOne(value any) (out any, changed bool) {
 	return
 }
 
-func (f *Filter) locate(pp Expr, data any, rest Expr, max int) (locs []Expr) {
-	ns, lcs := f.evalWithRoot([]any{}, data, nil)
+func (f *Filter) locate(pp Expr, data any, rest Expr, max int, root any) (locs []Expr) {
+	ns, lcs := f.evalWithRoot([]any{}, data, root)
 	stack, _ := ns.([]any)
 	if len(rest) == 0 { // last one
 		for _, lc := range lcs {
@@ -307,7 +307,7 @@ func (f *Filter) locate(pp Expr, data any, rest Expr, max int) (locs []Expr) {
 		cp := append(pp, nil) // place holder
 		for i, lc := range lcs {
 			cp[len(pp)] = lc
-			locs = locateContinueFrag(locs, cp, stack[i], rest, max)
+			locs = locateContinueFrag(locs, cp, stack[i], rest, max, root)
 			if 0 < max && max <= len(locs) {
 				break
 			}
@@ -320,11 +320,12 @@ func (f *Filter) locate(pp Expr, data any, rest Expr, max int) (locs []Expr) {
 func (f *Filter) Walk(rest, path Expr, nodes []any, cb func(path Expr, nodes []any)) {
 	path = append(path, nil)
 	data := nodes[len(nodes)-1]
+	root := nodes[0] // what $ in the script refers to, as in Get
 	nodes = append(nodes, nil)
 	switch tv := data.(type) {
 	case []any:
 		for i, v := range tv {
-			if f.Match(v) {
+			if f.matchWithRoot(v, root) {
 				path[len(path)-1] = Nth(i)
 				nodes[len(nodes)-1] = v
 				if 0 < len(rest) {
@@ -338,7 +339,7 @@ func (f *Filter) Walk(rest, path Expr, nodes []any, cb func(path Expr, nodes []a
 		size := tv.Size()
 		for i := 0; i < size; i++ {
 			v := tv.ValueAtIndex(i)
-			if f.Match(v) {
+			if f.matchWithRoot(v, root) {
 				path[len(path)-1] = Nth(i)
 				nodes[len(nodes)-1] = v
 				if 0 < len(rest) {
@@ -350,7 +351,7 @@ func (f *Filter) Walk(rest, path Expr, nodes []any, cb func(path Expr, nodes []a
 		}
 	case gen.Array:
 		for i, v := range tv {
-			if f.Match(v) {
+			if f.matchWithRoot(v, root) {
 				path[len(path)-1] = Nth(i)
 				nodes[len(nodes)-1] = v
 				if 0 < len(rest) {
@@ -368,7 +369,7 @@ func (f *Filter) Walk(rest, path Expr, nodes []any, cb func(path Expr, nodes []a
 			}
 			sort.Strings(keys)
 			for _, k := range keys {
-				if f.Match(tv[k]) {
+				if f.matchWithRoot(tv[k], root) {
 					path[len(path)-1] = Child(k)
 					nodes[len(nodes)-1] = tv[k]
 					if 0 < len(rest) {
@@ -387,7 +388,7 @@ func (f *Filter) Walk(rest, path Expr, nodes []any, cb func(path Expr, nodes []a
 			}
 			sort.Strings(keys)
 			for _, k := range keys {
-				if f.Match(tv[k]) {
+				if f.matchWithRoot(tv[k], root) {
 					path[len(path)-1] = Child(k)
 					nodes[len(nodes)-1] = tv[k]
 					if 0 < len(rest) {
@@ -403,7 +404,7 @@ func (f *Filter) Walk(rest, path Expr, nodes []any, cb func(path Expr, nodes []a
 		sort.Strings(keys)
 		for _, key := range keys {
 			v, _ := tv.ValueForKey(key)
-			if f.Match(v) {
+			if f.matchWithRoot(v, root) {
 				path[len(path)-1] = Child(key)
 				nodes[len(nodes)-1] = v
 				if 0 < len(rest) {
@@ -420,7 +421,7 @@ func (f *Filter) Walk(rest, path Expr, nodes []any, cb func(path Expr, nodes []a
 			cnt := rv.Len()
 			for i := 0; i < cnt; i++ {
 				v := rv.Index(i).Interface()
-				if f.Match(v) {
+				if f.matchWithRoot(v, root) {
 					path[len(path)-1] = Nth(i)
 					nodes[len(nodes)-1] = v
 					if 0 < len(rest) {
@@ -438,7 +439,7 @@ func (f *Filter) Walk(rest, path Expr, nodes []any, cb func(path Expr, nodes []a
 			for _, k := range keys {
 				mv := rv.MapIndex(k)
 				v := mv.Interface()
-				if f.Match(v) {
+				if f.matchWithRoot(v, root) {
 					path[len(path)-1] = Child(k.String())
 					nodes[len(nodes)-1] = v
 					if 0 < len(rest) {
